@@ -58,6 +58,8 @@ pub enum Class {
     MainClosureInplaceUsesCapturedClosure,
     TwoInplaceLambdasSameClosureParam,
     InplaceUsesClosureParam,
+    ClosureReassignsCapturedFnVar,
+    SiblingClosuresReassignSharedFnVar,
     // ---- known findings on the pinned tree (rate per dsp call in `rate()`)
     LocalCaptureBound,
     ReturnedBound,
@@ -93,7 +95,7 @@ pub enum Class {
     EscapingClosureCapturesLetBoundBox,
 }
 
-pub const STABLE: [Class; 37] = [
+pub const STABLE: [Class; 39] = [
     Class::LocalNoCapture,
     Class::InplaceCapturing,
     Class::GlobalClosureCalled,
@@ -131,6 +133,8 @@ pub const STABLE: [Class; 37] = [
     Class::MainClosureInplaceUsesCapturedClosure,
     Class::TwoInplaceLambdasSameClosureParam,
     Class::InplaceUsesClosureParam,
+    Class::ClosureReassignsCapturedFnVar,
+    Class::SiblingClosuresReassignSharedFnVar,
 ];
 /// Constructs that release a heap object twice (logged `invalid HeapIdx`) or use it after release
 /// (`BoxLoad: invalid heap index`) on the pinned tree. One scenario in twelve contains exactly one
@@ -208,6 +212,8 @@ impl Class {
             Class::MainClosureInplaceUsesCapturedClosure => "closure-made-by-main-whose-in-place-lambda-uses-a-captured-closure",
             Class::TwoInplaceLambdasSameClosureParam => "two-in-place-lambdas-using-the-same-closure-parameter",
             Class::InplaceUsesClosureParam => "in-place-lambda-using-a-closure-parameter",
+            Class::ClosureReassignsCapturedFnVar => "escaped-closure-reassigning-its-captured-function-variable",
+            Class::SiblingClosuresReassignSharedFnVar => "sibling-closures-one-reassigning-one-calling-a-shared-function-variable",
             Class::ClosureCapturingClosure => "local-closure-capturing-a-local-closure",
             Class::ClosureCapturingBox => "local-closure-capturing-a-local-box",
             Class::ReturnedClosureCapturingBox => "closure-returned-from-callee-capturing-a-boxed-argument",
@@ -454,6 +460,20 @@ impl Inst {
                     "fn mkh{i}(q){{\n  |x| x * q\n}}\nlet fh{i} = mkh{i}({k})\nfn once{i}(h:(float)->float, x:float){{\n  (|a| h(a) + 1.0)(x)\n}}\n"
                 ),
                 format!("  let r{i} = once{i}(fh{i}, now);\n"),
+                format!("r{i}"),
+            ),
+            Class::ClosureReassignsCapturedFnVar => (
+                format!(
+                    "fn mka{i}(q){{\n  |x| x + q\n}}\nlet ada{i} = mka{i}(3.0)\nlet adb{i} = mka{i}({k})\nfn mksw{i}(){{\n  let cur = ada{i}\n  let step = |c| {{\n    cur = if (c % 2.0 > 0.5) {{ ada{i} }} else {{ adb{i} }}\n    cur(1.0)\n  }}\n  step\n}}\nlet sw{i} = mksw{i}()\n"
+                ),
+                format!("  let r{i} = sw{i}(now);\n"),
+                format!("r{i}"),
+            ),
+            Class::SiblingClosuresReassignSharedFnVar => (
+                format!(
+                    "fn mka{i}(q){{\n  |x| x + q\n}}\nlet ada{i} = mka{i}(3.0)\nlet adb{i} = mka{i}({k})\nfn mkpr{i}(){{\n  let cur = ada{i}\n  let toggle = |c| {{\n    cur = if (c % 2.0 > 0.5) {{ ada{i} }} else {{ adb{i} }}\n    0.0\n  }}\n  let call = |x| cur(x)\n  (toggle, call)\n}}\nlet (tg{i}, cl{i}) = mkpr{i}()\n"
+                ),
+                format!("  let t{i} = if (now % {n}.0 < 0.5) {{ tg{i}(now / {n}.0) }} else {{ 0.0 }};\n  let r{i} = cl{i}(1.0) + t{i};\n"),
                 format!("r{i}"),
             ),
             Class::ListBuiltInBlock => (
